@@ -213,3 +213,27 @@ Proof.
   - exact W.
   - exact W.
 Qed.
+
+Ltac pnorm :=
+  repeat (progress (autorewrite with spec;
+                    cbn [regs pc dc f_s f_z f_v f_c f_cb mem halted ers op_count warned_ovf warned_swi
+                         warned_rti warning_count swarning_count location input_buffer input_pos out cfg
+                         upd_regs upd_pc upd_dc upd_f_s upd_f_z upd_f_v upd_f_c upd_f_cb upd_mem
+                         upd_halted upd_ers upd_op_count upd_warned_ovf upd_warning_count
+                         upd_swarning_count upd_location upd_out set_zs next])).
+
+(* no instruction touches the operation counter *)
+Lemma step_op_count mc mv i s : op_count (step_with mc mv i s) = op_count s.
+Proof.
+  destruct i; try match goal with c : cond |- _ => destruct c end; cbn [step_with];
+    unfold step_SETLO, step_SETHI, step_AND, step_OR, step_XOR, step_ADD, step_SUB, step_MUL_low, step_MUL_high,
+           step_INC, step_DEC, step_LSL, step_LSR, step_LSL8, step_LSR8, step_ASL, step_ASR, step_SAVEF,
+           step_RSTRF, step_FON, step_FOFF, step_FSET5, step_FSET4, step_LOAD, step_STORE, step_regbranch,
+           step_relbranch, step_BRR, step_CALL, step_RETURN, swap_call, return_warning, alu3, alu2, set_flags5,
+           f_AND, f_OR, f_XOR, f_ADD, f_SUB, f_MUL_low, f_MUL_high, f_LSL, f_LSR, f_LSL8, f_LSR8, f_ASL, f_ASR;
+    cbn [fst snd];
+    repeat match goal with |- context [if ?b then _ else _] => destruct b end;
+    repeat match goal with |- context [match ?l with [] => _ | _ => _ end] => destruct l as [|[? ?] ?] end;
+    repeat match goal with |- context [if ?b then _ else _] => destruct b end;
+    pnorm; reflexivity.
+Qed.
